@@ -163,14 +163,21 @@ impl RemotePublicKey {
     /// The peer ID of a key is defined over the *canonical* protobuf encoding of the key, not
     /// over whatever bytes the remote sent: the protobuf decoder also accepts other encodings
     /// of the same key (reordered or repeated fields, unknown fields, non-minimal varints), and
-    /// hashing those would give one key many peer IDs. `received_encoding` is only used for
-    /// key types that cannot be re-encoded locally.
-    #[cfg_attr(not(feature = "rsa"), allow(unused_variables))]
-    pub fn to_peer_id(&self, received_encoding: &[u8]) -> PeerId {
+    /// hashing those would give one key many peer IDs. The key is therefore re-encoded;
+    /// `_received_encoding` (the bytes the key was parsed from) is not used.
+    pub fn to_peer_id(&self, _received_encoding: &[u8]) -> PeerId {
         match self {
             RemotePublicKey::Ed25519(public_key) => public_key.to_peer_id(),
             #[cfg(feature = "rsa")]
-            RemotePublicKey::Rsa(_) => PeerId::from_public_key_protobuf(received_encoding),
+            RemotePublicKey::Rsa(public_key) => {
+                use prost::Message;
+
+                let canonical = keys_proto::PublicKey {
+                    r#type: keys_proto::KeyType::Rsa as i32,
+                    data: public_key.encode_x509(),
+                };
+                PeerId::from_public_key_protobuf(&canonical.encode_to_vec())
+            }
         }
     }
 }
